@@ -31,6 +31,29 @@ CLAIMED["C01"] = dict(
     technique="Lean 4 structural-induction proof over hand-written model + differential correspondence (raw h5py walk and read-back)",
     design="7 C01")
 
+CLAIMED["C07"] = dict(
+    text="Kernel-checked: C07_select/C07_writeFromRoot — for ALL trees, every node as target, each tree option, the file written by a "
+         "partial save into a fresh path is exactly header + encode(selSpec), where selSpec is the 3-line specification (root with its "
+         "whole body = all root metadata; node alone / node with branch re-rooted under the root / its children under the root); "
+         "C07_sel_wf — the selection is well-formed whenever the source tree is and no selected top node is named like an object of "
+         "the root's body; C07_read_back — reading the file returns exactly the selection; C07_unrooted — an unrooted node is wrapped "
+         "in <name>_root.",
+    note="Bodies opaque (content = body equality). Correspondence compares the raw file with the spec computed from the source objects "
+         "and with the model for every target/option incl. unrooted nodes.",
+    technique="Lean 4 proof of refinement to a selection spec + differential correspondence",
+    design="7 C07")
+CLAIMED["C08"] = dict(
+    text="Kernel-checked: C08_select — in ANY file whose root group is the encoding of a well-formed tree (one or several trees per "
+         "file), reading any node path with each tree option returns exactly readSpec (node alone / node+branch / branch under the "
+         "root, attached to a root with the file root's name and body); C08_missing/_missing_root/_descend_fails — a path that does not "
+         "resolve is refused; C08_open_modes — on the table regenerated from the source every h5py.File call outside write.py uses 'r'. "
+         "In the model read has no store output (structural).",
+    note="Byte-level immutability beyond 'opened read-only' is h5py/HDF5 (H7); the correspondence hashes the file bytes before and "
+         "after every read, successful or not. emdpath string parsing (leading '/', '//', trailing '/') is modelled and compared, "
+         "theorems are on parsed paths.",
+    technique="Lean 4 proof of refinement to a read spec + regenerated open-mode table (decide) + differential correspondence with byte hashes",
+    design="7 C08")
+
 NOT_YET = {}
 
 def main():
